@@ -331,7 +331,7 @@ class CGenerator:
 
     def visit_StaticAssert(self, n: c_ast.StaticAssert) -> str:
         s = "_Static_assert("
-        s += self.visit(n.cond)
+        s += self._visit_expr(n.cond)
         if n.message:
             s += ","
             s += self.visit(n.message)
@@ -379,7 +379,7 @@ class CGenerator:
             if isinstance(name, c_ast.ID):
                 s += "." + name.name
             else:
-                s += "[" + self.visit(name) + "]"
+                s += "[" + self._visit_expr(name) + "]"
         s += " = " + self._visit_expr(n.expr)
         return s
 
